@@ -196,11 +196,24 @@ LTop ==        \* with _jobs_lock: partition; then cancel overdue jobs
   /\ LET live == SelectSeq(jobs, LAMBDA j : jst[j] = "pending")
          pend == SelectSeq(live, LAMBDA j : ~IsOverdue(j))
          ov   == SelectSeq(live, LAMBDA j : IsOverdue(j))
-     IN /\ jobs' = (IF Bug = "drop_pending" /\ ov # <<>> THEN <<>> ELSE pend)
-        /\ ProcessOverdue(ov, IF Bug = "drop_pending" /\ ov # <<>> THEN <<>> ELSE pend, <<>>, now)
+     IN IF Bug = "partition_unlocked"
+          \* seeded model bug (change C09-r4m1): the list is only COPIED under the lock, partitioned outside it, and the
+          \* pending part assigned back under the lock later: a job appended in between is overwritten
+          THEN /\ lpend' = pend /\ overdue' = ov /\ pc' = [pc EXCEPT ![LOOP] = "l_assign"]
+               /\ UNCHANGED <<jobs, jst, wt, cur, cdl, obs, viol, hist>>
+          ELSE /\ jobs' = (IF Bug = "drop_pending" /\ ov # <<>> THEN <<>> ELSE pend)
+               /\ ProcessOverdue(ov, IF Bug = "drop_pending" /\ ov # <<>> THEN <<>> ELSE pend, <<>>, now)
   /\ pnow' = now
   /\ actor' = LOOP
   /\ UNCHANGED <<cfg, sdl, dl, lock, gate, evt, woken, wdl, edl, now>>
+
+G_LAssign == pc[LOOP] = "l_assign" /\ lock = "none"
+LAssign ==     \* (model bug only) with _jobs_lock: self._jobs = pending; then cancel the overdue jobs
+  /\ G_LAssign
+  /\ jobs' = lpend
+  /\ ProcessOverdue(overdue, lpend, <<>>, now)
+  /\ actor' = LOOP
+  /\ UNCHANGED <<pnow, cfg, sdl, dl, lock, gate, evt, woken, wdl, edl, now>>
 
 G_LCSet == pc[LOOP] = "l_cset"
 LCSet ==       \* the cancelled future's done-callback: self._jobs_write.set(); continue cancelling
@@ -291,7 +304,7 @@ OEnd ==
 \* ------------------------------------------------------------------ time
 AnyEnabled ==
   \/ \E j \in Jobs : G_SSleep(j) \/ G_SGate(j) \/ G_SDSub(j) \/ G_SLock(j) \/ G_SSet(j) \/ G_EFinish(j) \/ G_EResume(j) \/ G_ESet(j)
-  \/ G_LTop \/ G_LCSet \/ G_LCBusy \/ G_LEnter \/ G_LWake \/ G_LClear \/ G_OEnd
+  \/ G_LTop \/ G_LAssign \/ G_LCSet \/ G_LCBusy \/ G_LEnter \/ G_LWake \/ G_LClear \/ G_OEnd
 
 AllDeadlines ==
   {cfgS[j] : j \in {x \in Jobs : pc[Sub(x)] = "s_sleep"}}
@@ -313,7 +326,7 @@ Tick ==
 UrgentEnabled == \E j \in Jobs : G_EResume(j)
 Normal ==
   \/ \E j \in Jobs : SSleep(j) \/ SGate(j) \/ SDSub(j) \/ SLock(j) \/ SSet(j) \/ EFinish(j) \/ ESet(j)
-  \/ LTop \/ LCSet \/ LCBusy \/ LEnter \/ LWake \/ LClear \/ OEnd \/ Tick
+  \/ LTop \/ LAssign \/ LCSet \/ LCBusy \/ LEnter \/ LWake \/ LClear \/ OEnd \/ Tick
 Next == IF UrgentEnabled THEN \E j \in Jobs : EResume(j) ELSE Normal
 
 Spec == Init /\ [][Next]_vars
